@@ -335,6 +335,15 @@ func runC10(c *eng.Ctx) {
 		// one instance under several identities (aliases), every lifetime
 		{Regs: []Reg{mkReg("Leaf_K0_a", godi.Scoped, withAs("IK0", "IA")), mkReg("Leaf_K1_a", godi.Singleton, withAs("IK1", "IA", "IB"), withName("k")), mkReg("Leaf_K2_a", godi.Transient, withAs("IK2", "IB"), withGroup("g")), mkReg("OutG_K0K1", godi.Scoped), mkReg("MR_S0S4", godi.Transient, withGroup("h"))}},
 	}
+	// every special constructor form, in every lifetime
+	for _, ss := range FormSpecs() {
+		directed = append(directed, ss.Spec)
+	}
+	for di, d := range directed {
+		if m := NewModel(d); m.Class != ClsOK {
+			panic(fmt.Sprintf("harness fixture %d of C10 (directed) is not buildable: %s", di, m.Class))
+		}
+	}
 	for k := 0; k < nSpecs+len(directed); k++ {
 		idx, mine := cr.next()
 		if !mine {
